@@ -335,7 +335,7 @@ pub fn check(c: &IgsCase, known: &Known) -> Verdict {
         IDX_SETUP => "igs|setup".to_string(),
         i => c.segs.get(i as usize).map(family).unwrap_or_else(|| "igs|?".to_string()),
     };
-    crate::common::isolate(&fam_of, known, &|rep, removed| {
+    crate::common::isolate(c, &fam_of, known, &|c: &IgsCase, rep, removed| {
         let infos: Vec<SegInfo> = c
             .segs
             .iter()
@@ -354,7 +354,8 @@ pub fn check(c: &IgsCase, known: &Known) -> Verdict {
 // ---------------------------------------------------------------------------------------------------------
 // enumerated part 1: every command letter x 0..=12 parameters x value patterns
 
-pub const LARGE: u32 = 20_000;
+/// beyond any canvas; LARGE^2 still fits an i32
+pub const LARGE: u32 = 40_000;
 const VALUES: [u32; 6] = [0, 1, 3, 8, 200, LARGE];
 
 pub fn patterns(n: usize) -> Vec<Vec<u32>> {
@@ -427,7 +428,12 @@ impl Table {
         let prefix = (rest % 2) as u8;
         let cmd = self.letters[(rest / 2) as usize];
         let text = if cmd == b'W' { Bytes(b"Hi".to_vec()) } else { Bytes(Vec::new()) };
-        IgsCase { prefix, segs: vec![IgsSeg { cmd, gt: true, params: ps.iter().map(|v| v.to_string()).collect(), text, term: 0, lp: None }] }
+        let mut params: Vec<String> = ps.iter().map(|v| v.to_string()).collect();
+        if matches!(cmd, b'f' | b'z') && params.len() >= 3 && params.len() % 2 == 1 {
+            // the point count these two commands check: the patterns then apply to the coordinates
+            params[0] = ((params.len() - 1) / 2).to_string();
+        }
+        IgsCase { prefix, segs: vec![IgsSeg { cmd, gt: true, params, text, term: 0, lp: None }] }
     }
 }
 
@@ -435,7 +441,7 @@ impl Table {
 
 const LOOP_RANGES: [(u32, u32, u32); 5] = [(0, 4, 1), (4, 0, 2), (2, 2, 1), (0, 3, 0), (0, LARGE + 1, LARGE)];
 const LOOP_STYLES: [&[&str]; 7] = [&["x"], &["y"], &["1"], &["+1"], &["-1"], &["!1"], &["x", "y", "+10", "3"]];
-/// (range, style) combinations: the four small ranges with every style, the large range (x = 0 and 20000) with x and y only
+/// (range, style) combinations: the four small ranges with every style, the large range (x = 0 and LARGE) with x and y only
 const N_COMBOS: usize = 4 * 7 + 2;
 
 pub fn loops_total() -> u64 {
@@ -499,6 +505,8 @@ fn mk(cmd: u8, params: &[u32], text: &[u8]) -> IgsSeg {
 pub struct Pairs {
     setters: Vec<IgsSeg>,
     drawers: Vec<IgsSeg>,
+    /// a few explicit pairs on top of the product
+    extra: Vec<(IgsSeg, IgsSeg)>,
 }
 
 impl Pairs {
@@ -583,13 +591,33 @@ impl Pairs {
         d.push(mk(b'G', &[3, 3, 0, 0, 10, 10, 60, 60], b""));
         d.push(mk(b'c', &[1, 2], b""));
         d.push(mk(b'p', &[5, 5], b""));
-        Pairs { setters: s, drawers: d }
+        // loops: a loop that never runs (from = to) leaves its command letter behind; a loop without a command letter then uses it
+        let lp = |from: u32, to: u32, target: &str, group: &[&str]| IgsSeg {
+            cmd: b'&',
+            gt: true,
+            params: vec![from.to_string(), to.to_string(), "1".to_string(), "0".to_string()],
+            text: Bytes(Vec::new()),
+            term: 1,
+            lp: Some(LoopTail { target: target.to_string(), sep: b',', count: group.len().to_string(), groups: vec![group.iter().map(|t| t.to_string()).collect()] }),
+        };
+        let extra = vec![
+            (lp(0, 0, "Z", &[]), lp(LARGE, LARGE + 1, "", &["0", "0", "x", "x"])),
+            (lp(0, 0, "R", &[]), lp(0, 1, "", &["1", "0"])),
+            (lp(0, 0, "R", &[]), lp(LARGE, LARGE + 1, "", &["0", "0", "x", "x"])),
+            (mk(b'k', &[0], b""), lp(LARGE, LARGE + 1, "f", &["3", "0", "0", "x", "0", "0", "x"])),
+        ];
+        Pairs { setters: s, drawers: d, extra }
     }
     pub fn total(&self) -> u64 {
-        (self.setters.len() * self.drawers.len()) as u64
+        (self.setters.len() * self.drawers.len() + self.extra.len()) as u64
     }
     pub fn case(&self, i: u64) -> IgsCase {
         let nd = self.drawers.len() as u64;
+        let product = self.setters.len() as u64 * nd;
+        if i >= product {
+            let (a, b) = &self.extra[(i - product) as usize];
+            return IgsCase { prefix: 0, segs: vec![a.clone(), b.clone()] };
+        }
         IgsCase { prefix: 0, segs: vec![self.setters[(i / nd) as usize].clone(), self.drawers[(i % nd) as usize].clone()] }
     }
 }
@@ -599,16 +627,18 @@ impl Pairs {
 
 fn value() -> BoxedStrategy<String> {
     let num = prop_oneof![
-        6 => Just(0u32),
-        6 => Just(1u32),
-        8 => 0u32..5,
-        8 => 0u32..17,
-        8 => 0u32..200,
-        6 => 0u32..640,
-        4 => prop_oneof![Just(199u32), Just(200), Just(319), Just(320), Just(639), Just(640), Just(399), Just(400)],
-        3 => 0u32..2001,
-        1 => 9995u32..=9999,
-        1 => prop_oneof![40 => 2000u32..5000, 1 => Just(LARGE), 1 => Just(99_999u32), 1 => 0u32..100_000],
+        18 => Just(0u32),
+        18 => Just(1u32),
+        24 => 0u32..5,
+        24 => 0u32..17,
+        24 => 0u32..200,
+        18 => 0u32..640,
+        12 => prop_oneof![Just(199u32), Just(200), Just(319), Just(320), Just(639), Just(640), Just(399), Just(400)],
+        9 => 0u32..1200,
+        2 => 9995u32..=9999,
+        // values beyond any canvas are rare here (the table parts place them systematically): every such value costs a
+        // fill command its whole CPU budget on the pinned tree
+        1 => prop_oneof![4 => 1200u32..5000, 1 => Just(LARGE), 1 => Just(99_999u32), 1 => 0u32..100_000],
     ];
     (num, 0u8..60).prop_map(|(n, form)| match form {
         0 => format!("-{}", n % 51),
@@ -636,7 +666,7 @@ fn loop_token() -> BoxedStrategy<String> {
         1 => Just("!319".to_string()),
         1 => Just(String::new()),
         1 => Just("_5".to_string()),
-        1 => Just("99999".to_string()),
+        1 => prop_oneof![12 => Just("639".to_string()), 1 => Just("99999".to_string())],
         1 => Just("+x".to_string()),
     ]
     .boxed()
